@@ -280,6 +280,26 @@ Proof.
   destruct (h y); cbn in *; [destruct Hin as [<-|Hin]; [left; reflexivity|right; apply IHl; exact Hin]|right; apply IHl; exact Hin].
 Qed.
 
+Lemma mapM_map {A B C} (f : B -> option C) (h : A -> B) (l : list A) : mapM f (map h l) = mapM (fun x => f (h x)) l.
+Proof. induction l as [|x l IH]; cbn; [reflexivity|]. rewrite IH; reflexivity. Qed.
+
+(* Observations.add over the landmarks, read back per point *)
+Lemma add_obs_fold (l m : list (Z * list (path * Z))) :
+  exists m', fold_left add_obs (map (fun x => (fst x, Some (snd x))) l) (Some m) = Some m' /\
+  forall k, obs_at m' k = obs_at m k ++ List.concat (map (fun x => if Z.eqb (fst x) k then snd x else []) l).
+Proof.
+  revert m; induction l as [|[kx ox] l IH]; intros m; cbn [map fold_left].
+  - exists m. split; [reflexivity|]. intros k. cbn. rewrite app_nil_r. reflexivity.
+  - unfold add_obs at 2. cbn [fst snd]. destruct ox as [|o ox].
+    + destruct (IH m) as [m' [F Hm]]. exists m'. split; [exact F|]. intros k. rewrite Hm. cbn [List.concat map fst snd].
+      destruct (Z.eqb kx k); reflexivity.
+    + destruct (IH (AL.insert kx (obs_at m kx ++ o :: ox) m)) as [m' [F Hm]]. exists m'. split; [exact F|].
+      intros k. rewrite Hm. cbn [List.concat map fst snd]. unfold obs_at at 1.
+      destruct (Z.eqb_spec kx k) as [->|Ne].
+      * rewrite AL.lookup_insert_eq. rewrite <- app_assoc. reflexivity.
+      * rewrite AL.lookup_insert_neq by congruence. reflexivity.
+Qed.
+
 (* ------------------------------------------------------------------ in-range datasets *)
 Section InRange.
   Variable cfg : config.
@@ -619,7 +639,7 @@ Section InRange.
     unfold import_matches. rewrite (mapM_Some _ (fun x => match import_match ximgs x with Some y => y | None => (([], []), []) end)).
     - cbn [option_map]. f_equal. rewrite map_map.
       rewrite (map_ext_in _ normf) by (intros e He; rewrite (import_match_x e He); reflexivity).
-      apply al_of_list_nodup. rewrite map_map. apply ND_normf.
+      unfold xmatches. apply al_of_list_nodup. rewrite map_map. apply ND_normf.
     - intros x Hx. apply in_map_iff in Hx. destruct Hx as [e [<- He]]. rewrite (import_match_x e He). reflexivity.
   Qed.
 
@@ -639,6 +659,249 @@ Section InRange.
     destruct (sltb _ _); cbn [fst snd]; rewrite eqb_rn by assumption; [|reflexivity].
     destruct (eqb_spec (snd (fst e)) x) as [E1|N1], (eqb_spec (fst (fst e)) x) as [E2|N2];
       try reflexivity; try (apply swap_swap); try congruence.
-    exfalso. rewrite (neq_eqb _ _ N1), (neq_eqb _ _ N2) in S. rewrite andb_false_r in S. cbn in S. discriminate.
+    exfalso. rewrite ?(neq_eqb _ _ N1), ?(neq_eqb _ _ N2), ?andb_false_r in S. cbn in S. discriminate.
+  Qed.
+
+  (* structure: points *)
+  Lemma xstructure_fill (k : nat) pts :
+    map (fun j => match AL.lookup (Z.of_nat j) (map (fun l => (l_key l, l_X l)) (xstructure (Z.of_nat k) pts)) with
+                  | Some x => x | None => vzero end) (seq k (List.length pts)) = pts.
+  Proof.
+    revert k; induction pts as [|x pts IH]; intros k; cbn [List.length seq map xstructure]; [reflexivity|].
+    cbn [l_key l_X AL.lookup]. rewrite eqb_refl. f_equal.
+    rewrite <- (IH (S k)) at 2. apply map_ext_in. intros j Hj. apply in_seq in Hj.
+    destruct (eqb_spec (Z.of_nat j) (Z.of_nat k)) as [E|_]; [apply Nat2Z.inj in E; lia|].
+    replace (Z.of_nat k + 1)%Z with (Z.of_nat (S k)) by lia. reflexivity.
+  Qed.
+  Lemma xstructure_key_ge k pts l : In l (xstructure k pts) -> (k <= l_key l)%Z.
+  Proof.
+    revert k; induction pts as [|x pts IH]; intros k; cbn; [tauto|]. intros [<-|H]; [cbn; lia|]. apply IH in H. lia.
+  Qed.
+  Lemma xstructure_keys_nodup k pts : NoDup (map l_key (xstructure k pts)).
+  Proof.
+    revert k; induction pts as [|x pts IH]; intros k; cbn; [constructor|]. constructor; [|apply IH].
+    intros Hin. apply in_map_iff in Hin. destruct Hin as [l [E Hl]]. apply xstructure_key_ge in Hl. lia.
+  Qed.
+  Lemma xstructure_max k pts acc :
+    fold_left Z.max (map l_key (xstructure k pts)) acc =
+    match pts with [] => acc | _ => Z.max acc (k + Z.of_nat (List.length pts) - 1) end.
+  Proof.
+    revert k acc; induction pts as [|x pts IH]; intros k acc; [reflexivity|].
+    cbn [xstructure map fold_left l_key]. rewrite IH. destruct pts; cbn [List.length]; lia.
+  Qed.
+  Lemma import_points_x x pts : import_points (xstructure 0 (x :: pts)) = x :: pts.
+  Proof.
+    unfold import_points. rewrite al_of_list_nodup by (rewrite map_map; apply xstructure_keys_nodup).
+    rewrite xstructure_max. unfold zrange. rewrite map_map.
+    replace (Z.to_nat (Z.max 0 (0 + Z.of_nat (List.length (x :: pts)) - 1) + 1)) with (List.length (x :: pts)) by (cbn [List.length]; lia).
+    apply (xstructure_fill 0).
+  Qed.
+
+  (* structure: observations *)
+  Definition robs (k : Z) : list (path * Z) := map (fun o => (rn (fst o), snd o)) (obs_at (d_obs d) k).
+  Fixpoint ystruct (k : Z) (pts : list vec) : list (Z * list (path * Z)) :=
+    match pts with [] => [] | _ :: pts' => (k, robs k) :: ystruct (k + 1) pts' end.
+
+  Lemma import_lm_obs_x k x : import_lm_obs xnames_of xkp (mkLm k x (xobs (obs_at (d_obs d) k))) = Some (robs k).
+  Proof.
+    unfold import_lm_obs, xobs. cbn [l_obs]. rewrite mapM_map. cbn [fst snd].
+    rewrite (mapM_Some _ (fun o => (rn (fst o), snd o))).
+    - cbn [option_map]. f_equal. apply filter_all. intros o Ho. apply in_map_iff in Ho. destruct Ho as [o' [<- Ho']].
+      destruct (obs_at_members k o' Ho') as [A B]. cbn [fst]. apply memb_In. apply AL.lookup_In_keys.
+      rewrite (xkp_lookup _ A). apply AL.lookup_In_keys. exact B.
+    - intros o Ho. destruct (obs_at_members k o Ho) as [A _]. rewrite (names_of_lookup _ A). reflexivity.
+  Qed.
+  Lemma import_lm_struct k pts :
+    map (fun l => (l_key l, import_lm_obs xnames_of xkp l)) (xstructure k pts) = map (fun x => (fst x, Some (snd x))) (ystruct k pts).
+  Proof.
+    revert k; induction pts as [|x pts IH]; intros k; cbn [xstructure ystruct map]; [reflexivity|].
+    rewrite import_lm_obs_x, IH. reflexivity.
+  Qed.
+  Lemma concat_ystruct k pts j :
+    List.concat (map (fun x => if Z.eqb (fst x) j then snd x else []) (ystruct k pts)) =
+    if (k <=? j)%Z && (j <? k + Z.of_nat (List.length pts))%Z then robs j else [].
+  Proof.
+    revert k; induction pts as [|x pts IH]; intros k; cbn [ystruct map List.concat List.length fst snd].
+    - destruct (Z.leb_spec k j), (Z.ltb_spec j (k + Z.of_nat 0)); cbn; try reflexivity; lia.
+    - rewrite IH. destruct (Z.eqb_spec k j) as [->|Ne].
+      + destruct (Z.leb_spec (j + 1) j); [lia|]. cbn [andb]. rewrite app_nil_r.
+        destruct (Z.leb_spec j j), (Z.ltb_spec j (j + Z.of_nat (S (List.length pts)))); cbn; try reflexivity; lia.
+      + cbn [app].
+        destruct (Z.leb_spec (k + 1) j), (Z.ltb_spec j (k + 1 + Z.of_nat (List.length pts))), (Z.leb_spec k j),
+          (Z.ltb_spec j (k + Z.of_nat (S (List.length pts)))); cbn; try reflexivity; lia.
+  Qed.
+
+  Definition in_bounds (j : Z) : bool := (0 <=? j)%Z && (j <? Z.of_nat (List.length (points_list (d_points d))))%Z.
+
+  (* the whole re-imported dataset, before from_rotation_matrix is applied *)
+  Lemma import_core_x : exists k, import_core xsfm = Some k /\
+    r_cams k = xcams /\ r_images k = ximgs /\ r_poses k = xposes /\
+    points_list (r_points k) = points_list (d_points d) /\
+    (forall j, obs_at (r_obs k) j = if in_bounds j then robs j else []) /\
+    r_kp k = xkp /\ r_matches k = xmatches.
+  Proof.
+    unfold import_core, xsfm. cbn [s_root_base s_views s_regions s_intrinsics s_matches s_extrinsics s_structure].
+    rewrite import_images_x, import_kp_x, names_of_x, import_cams_x, import_matches_x, import_poses_x.
+    unfold in_bounds. destruct (d_points d) as [[|x pts]|]; cbn [points_list].
+    - eexists; split; [reflexivity|]. cbn. repeat split; try reflexivity.
+      intros j. destruct (Z.leb_spec 0 j), (Z.ltb_spec j 0); cbn; try reflexivity; lia.
+    - cbn [xstructure]. change (mkLm 0 x (xobs (obs_at (d_obs d) 0)) :: xstructure (0 + 1) pts) with (xstructure 0 (x :: pts)).
+      unfold import_obs. rewrite import_lm_struct.
+      destruct (add_obs_fold (ystruct 0 (x :: pts)) []) as [m' [F Hm]]. rewrite F.
+      eexists; split; [reflexivity|]. cbn [r_cams r_images r_poses r_points r_obs r_kp r_matches points_list].
+      repeat split; try reflexivity; [apply import_points_x|].
+      intros j. rewrite Hm, concat_ystruct. reflexivity.
+    - eexists; split; [reflexivity|]. cbn. repeat split; try reflexivity.
+      intros j. destruct (Z.leb_spec 0 j), (Z.ltb_spec j 0); cbn; try reflexivity; lia.
   Qed.
 End InRange.
+
+(* ------------------------------------------------------------------ "up to the common image-root prefix" *)
+Definition is_prefix (p l : path) : Prop := exists r, l = p ++ r.
+Lemma is_prefix_trans a b c : is_prefix a b -> is_prefix b c -> is_prefix a c.
+Proof. intros [r ->] [r' ->]. exists (r ++ r'). rewrite app_assoc. reflexivity. Qed.
+Lemma lcp2_prefix a b : is_prefix (lcp2 a b) a /\ is_prefix (lcp2 a b) b.
+Proof.
+  revert b; induction a as [|x a IH]; intros b; cbn.
+  - split; [exists []|exists b]; reflexivity.
+  - destruct b as [|y b]; [split; [exists (x :: a)|exists []]; reflexivity|].
+    destruct (eqb_spec x y) as [->|Ne]; [|split; [exists (x :: a)|exists (y :: b)]; reflexivity].
+    destruct (IH b) as [[r1 E1] [r2 E2]]. split; [exists r1|exists r2]; cbn; congruence.
+Qed.
+Lemma fold_lcp2_prefix ds acc :
+  is_prefix (fold_left lcp2 ds acc) acc /\ forall x, In x ds -> is_prefix (fold_left lcp2 ds acc) x.
+Proof.
+  revert acc; induction ds as [|y ds IH]; intros acc; cbn [fold_left].
+  - split; [exists []; rewrite app_nil_r; reflexivity|intros x []].
+  - destruct (IH (lcp2 acc y)) as [P Q]. destruct (lcp2_prefix acc y) as [Pa Py]. split.
+    + eapply is_prefix_trans; eassumption.
+    + intros x [<-|Hx]; [eapply is_prefix_trans; eassumption|apply Q; exact Hx].
+Qed.
+Lemma lcp_all_prefix ds x : In x ds -> is_prefix (lcp_all ds) x.
+Proof.
+  destruct ds as [|d0 ds]; [intros []|]. cbn [lcp_all]. destruct (fold_lcp2_prefix ds d0) as [P Q].
+  intros [<-|Hx]; [exact P|apply Q; exact Hx].
+Qed.
+
+(* the new name of an image: the directory shared by all images is replaced by the name of the image root;
+   the rest is kept (or joined with '_' when flattening) *)
+Lemma rename_spec cfg d n : In n (names d) -> n <> [] ->
+  exists rel, n = sub_root d ++ rel /\ rel <> [] /\
+              rename cfg d n = images_dir cfg d :: (if flatten cfg then [sjoin "_" rel] else rel).
+Proof.
+  intros Hn NE. assert (Hd : In (dirname n) (map dirname (names d))) by (apply in_map; exact Hn).
+  destruct (lcp_all_prefix _ _ Hd) as [rest E]. fold (sub_root d) in E.
+  exists (rest ++ [last n ""]). assert (En : n = sub_root d ++ rest ++ [last n ""]).
+  { rewrite app_assoc, <- E. apply app_removelast_last; exact NE. }
+  split; [exact En|]. split; [destruct rest; discriminate|].
+  remember (last n "") as l eqn:Hl. clear Hl E Hd Hn NE. subst n.
+  unfold rename, mvg_path.
+  rewrite skipn_app, skipn_all, Nat.sub_diag. cbn [skipn app]. f_equal.
+  destruct (flatten cfg); [reflexivity|]. symmetry. apply app_removelast_last. destruct rest; discriminate.
+Qed.
+
+(* ------------------------------------------------------------------ the round trip, by image name *)
+Section Roundtrip.
+  Variable from_matrix : mat -> quat.
+  Hypothesis from_matrix_rot : forall M, mmul M (mtrans M) =m= mid -> mdet M == 1 ->
+    rot (from_matrix M) =m= M /\ ~ n2 (from_matrix M) == 0.
+  Variable cfg : config.
+  Variable d : dataset.
+  Hypothesis IR : in_range cfg d = true.
+  Let rn := rename cfg d.
+
+  Definition reimported : kdata pose :=
+    match import from_matrix (xsfm cfg d) with Some r => r | None => mkK [] [] [] None [] [] [] end.
+
+  Lemma reimported_ok : export cfg d = Some (xsfm cfg d) /\ import from_matrix (xsfm cfg d) = Some reimported.
+  Proof.
+    split; [apply export_x; exact IR|]. unfold reimported, import.
+    destruct (import_core_x cfg d IR) as [k [E _]]. rewrite E. reflexivity.
+  Qed.
+
+  Lemma reimported_fields :
+    r_cams reimported = xcams cfg d /\ r_images reimported = ximgs cfg d /\
+    r_poses reimported = map (fun i => (key_of d i, reimport_pose from_matrix (pose_of_img d i))) (d_images d) /\
+    points_list (r_points reimported) = points_list (d_points d) /\
+    (forall j, obs_at (r_obs reimported) j = if in_bounds d j then robs cfg d j else []) /\
+    r_kp reimported = xkp cfg d /\ r_matches reimported = xmatches cfg d.
+  Proof.
+    unfold reimported, import. destruct (import_core_x cfg d IR) as [k (E & C & I & P & Pt & O & K & M)].
+    rewrite E. cbn [option_map finish r_cams r_images r_poses r_points r_obs r_kp r_matches].
+    repeat split; try assumption. rewrite P. unfold xposes. rewrite map_map. reflexivity.
+  Qed.
+
+  (* 1. the same images, renamed, in the same order; the renaming merges no two images *)
+  Lemma rt_images : map snd (r_images reimported) = map rn (names d).
+  Proof.
+    destruct reimported_fields as (_ & I & _). rewrite I. unfold ximgs, names. rewrite !map_map. reflexivity.
+  Qed.
+
+  Lemma d_image_of_x i : In i (d_images d) -> d_image_of d (i_name i) = Some i.
+  Proof. intros Hi. apply (find_map_key i_name); [exact (ND_names cfg d IR)|exact Hi]. Qed.
+  Lemma r_key_of_x i : In i (d_images d) -> r_key_of reimported (rn (i_name i)) = Some (key_of d i).
+  Proof.
+    intros Hi. unfold r_key_of. destruct reimported_fields as (_ & I & _). rewrite I. unfold ximgs.
+    rewrite find_map. cbn [snd].
+    rewrite (find_map_key (fun i => rename cfg d (i_name i)) _ i (ND_rn_images cfg d IR) Hi). reflexivity.
+  Qed.
+
+  (* 2. every image keeps its world-to-camera pose: same rotation (sign and scale of the quaternion are free),
+        same translation *)
+  Lemma rt_pose n p : In n (names d) -> d_pose_of d n = Some p ->
+    exists p', r_pose_of reimported (rn n) = Some p' /\
+               rot (pr p') =m= rot (pr p) /\ pt p' =v= pt p /\ ~ n2 (pr p') == 0.
+  Proof.
+    intros Hn Hp. destruct (In_names_image d n Hn) as [i [Hi <-]].
+    unfold d_pose_of in Hp. rewrite (d_image_of_x i Hi) in Hp.
+    destruct (image_facts cfg d IR i Hi) as (_ & P & _ & NZ). rewrite P in Hp. injection Hp as <-.
+    exists (reimport_pose from_matrix (pose_of_img d i)). split.
+    - unfold r_pose_of. rewrite (r_key_of_x i Hi). destruct reimported_fields as (_ & _ & Po & _). rewrite Po.
+      apply (lookup_map_key (key_of d) (fun i => reimport_pose from_matrix (pose_of_img d i))); [exact (ND_key_of cfg d IR)|exact Hi].
+    - apply pose_roundtrip; assumption.
+  Qed.
+
+  (* 3. every image keeps its intrinsics, as a projection function *)
+  Lemma rt_camera n c : In n (names d) -> d_cam_of d n = Some c ->
+    exists c', r_cam_of reimported (rn n) = Some c' /\ cam_equiv c' c = true.
+  Proof.
+    intros Hn Hc. destruct (In_names_image d n Hn) as [i [Hi <-]].
+    unfold d_cam_of in Hc. rewrite (d_image_of_x i Hi) in Hc.
+    destruct (image_facts cfg d IR i Hi) as (C & _). rewrite C in Hc. injection Hc as <-.
+    destruct (xcams_lookup cfg d IR i Hi) as [L Q]. exists (ycam cfg (cam_of_img d i)). split; [|exact Q].
+    unfold r_cam_of. rewrite (r_key_of_x i Hi). destruct reimported_fields as (Cm & _). rewrite Cm. exact L.
+  Qed.
+
+  (* 4. the same points, in the same order *)
+  Lemma rt_points : points_list (r_points reimported) = points_list (d_points d).
+  Proof. apply reimported_fields. Qed.
+
+  (* 5. every point keeps its observations (image renamed, same feature); nothing is observed elsewhere *)
+  Lemma rt_observations j :
+    obs_at (r_obs reimported) j =
+    if in_bounds d j then map (fun o => (rn (fst o), snd o)) (obs_at (d_obs d) j) else [].
+  Proof. destruct reimported_fields as (_ & _ & _ & _ & O & _). apply O. Qed.
+
+  (* 6. keypoints / descriptors of an image are those of the original image *)
+  Lemma rt_keypoints n : In n (names d) -> AL.lookup (rn n) (r_kp reimported) = AL.lookup n (d_kp d).
+  Proof. intros Hn. destruct reimported_fields as (_ & _ & _ & _ & _ & K & _). rewrite K. apply xkp_lookup; assumption. Qed.
+
+  (* 7. the matching relation between any two images is the same; every stored pair comes from an original one *)
+  Lemma rt_matches x y : In x (names d) -> In y (names d) ->
+    match_rel (r_matches reimported) (rn x) (rn y) = match_rel (d_matches d) x y.
+  Proof.
+    intros X Y. destruct reimported_fields as (_ & _ & _ & _ & _ & _ & M). rewrite M. apply match_rel_x; assumption.
+  Qed.
+  Lemma rt_matches_only e' : In e' (r_matches reimported) ->
+    exists e, In e (d_matches d) /\ same_pair (fst e') (rn (fst (fst e)), rn (snd (fst e))) = true /\
+              sltb (pstr (snd (fst e'))) (pstr (fst (fst e'))) = false.
+  Proof.
+    destruct reimported_fields as (_ & _ & _ & _ & _ & _ & M). rewrite M. unfold xmatches. rewrite in_map_iff.
+    intros [e [<- He]]. exists e. split; [exact He|]. unfold normf. fold rn.
+    destruct (sltb (pstr (rn (snd (fst e)))) (pstr (rn (fst (fst e))))) eqn:S; cbn [fst snd].
+    - split; [unfold same_pair; cbn [fst snd]; rewrite !eqb_refl; apply orb_true_r|].
+      unfold sltb in *. apply negb_true_iff in S. apply negb_false_iff. unfold sleb in *.
+      destruct (lleb_total (bytes_of (pstr (rn (snd (fst e))))) (bytes_of (pstr (rn (fst (fst e)))))) as [T|T]; [exact T|congruence].
+    - split; [unfold same_pair; cbn [fst snd]; rewrite !eqb_refl; reflexivity|exact S].
+  Qed.
+End Roundtrip.
